@@ -11,7 +11,13 @@ Worker: for each corpus molecule (fresh parse)
     care about evaluation order; a cache written as a side effect of another observable does),
   * `copy-after`  = on a copy made AFTER all caches were filled,
   * `isolated`    = each observable alone on its own pristine copy (nothing evaluated before it),
-  and reports every in-process difference.  Pack bytes are included whenever the de-cythonised modules can be injected."""
+  and reports every in-process difference.  Pack bytes are included whenever the de-cythonised modules can be injected.
+
+Coverage audit extension (bounded/d19_extra.py, oracles/o19_obs.py; worker mode `--extra`): a wider catalogue of observables (every
+public cached property, every format spec, fingerprint / matcher keywords, compiled matcher, derived containers, pack round trip) on
+special input classes and numbering variants, observed after every IN-PLACE operation with warm caches and compared with a cold
+independent rebuild, with copies under every keep_* flag and with a fresh parse of the canonical string; reactions with their CGRs and
+query containers through the same scheme; one more process with PYTHONHASHSEED=random."""
 import hashlib
 import itertools
 import json
@@ -150,6 +156,57 @@ def worker(total, start, n):
     w.flush()
 
 
+def extra_worker(tier, part, index, stride):
+    """records of every `stride`-th item of part M / R / Q starting at `index` (bounded/d19_extra.py)"""
+    from vlib import env
+    env.setup()
+    try:
+        env.setup(pyx=True)
+        pack = True
+    except Exception:
+        pack = False
+    from bounded import d19_extra as X
+    from oracles import o19_obs as O
+    w = sys.stdout
+    if part == 'M':
+        obs = O.molecule_observables(pack)
+        items = X.molecule_items(tier, total=int(os.environ['VERIF_B19_EXTRA']) if os.environ.get('VERIF_B19_EXTRA') else None)
+        run1 = lambda it, i: X.run_molecule(*it, obs, oi_item=i)
+    elif part == 'R':
+        obs = O.reaction_observables(pack)
+        items = X.reaction_items(tier)
+        run1 = lambda it, i: X.run_reaction(*it, obs)
+    else:
+        from chython import smiles
+        obs = O.query_observables(pack, [(t, smiles(t)) for t in X.Q_TARGETS])
+        items = X.Q_SMARTS
+        run1 = lambda it, i: X.run_query(it, obs)
+    w.write(json.dumps({'meta': {'pack': pack, 'hashseed': os.environ.get('PYTHONHASHSEED'), 'items': len(items), 'observables': len(obs),
+                                 'local': [o.name for o in obs if o.local]}}) + '\n')
+    for i in range(index, len(items), stride):
+        for rec in run1(items[i], i):
+            rec['i'] = i
+            w.write(json.dumps(rec) + '\n')
+    w.flush()
+
+
+# storage-order dependent observables of a reaction (roles as stored): what a hash-seed dependent re-sorting of a role shows up in
+_R_STORED = ('format:!c', 'format:m!c', 'roles', 'molecules:', 'pack', 'check_valence', 'cgr:')   # the CGR unites the roles in stored order (`|` renumbers collisions)
+
+
+def _family(part, rec, kind, name):
+    """known-finding family of a difference, decided by predicates on the INPUT (container kind, operation, observable, role counts) - never by
+    the difference itself; None = no recorded family, the key names the specific input"""
+    if part == 'Q' and name == 'str' and kind.startswith('copy'):
+        return 'copy:str:QueryContainer'            # str() of a copied query container
+    if part == 'M' and kind == 'process' and name in ('morgan_hash_smiles', 'morgan_smiles_hash') and (rec.get('flags') or {}).get('morgan-hash-shared-by-fragment-strings'):
+        return 'process:morgan_hash_smiles:hash-shared-by-two-or-more-fragment-strings'
+    if part == 'R' and kind == 'process' and rec['op'] in ('remove_reagents:keep', 'remove_reagents:rules,keep') and name.startswith(_R_STORED) \
+            and 'roles' in rec and rec['roles'][1] - rec['roles0'][1] >= 2:
+        return 'process:stored-reagents-order@remove_reagents(keep_reagents=True):two-or-more-new-reagents'
+    return None
+
+
 def bounded(run):
     from vlib import env
     from bounded import domains as D
@@ -159,6 +216,9 @@ def bounded(run):
         total = int(os.environ['VERIF_B19_TOTAL'])
     r = D.rnd('c19-seeds')
     seeds = ['0', '0', '1', str(r.randrange(2, 2 ** 32 - 1)), str(r.randrange(2, 2 ** 32 - 1))]
+    if not quick:
+        seeds.append('random')
+    xseeds = ['0', seeds[3], 'random']    # processes of the extra part (bounded/d19_extra.py)
     size = 25 if quick else 100          # molecules per worker process; the semaphore below balances the load over NPROC slots
     nchunks = -(-total // size)
     jobs = []
@@ -166,25 +226,42 @@ def bounded(run):
     run.assume('third-party code (numpy, lazy_object_proxy, CachedMethods shim) is deterministic',
                'a second process with the same hash seed stands for "another interpreter process" (address-space layout, import order)',
                'pack bytes come from the mechanically de-cythonised .pyx modules (cyx) when they can be injected')
-    run.bound(f'{total} corpus molecules (seeded sample) x {len(seeds)} fresh processes with PYTHONHASHSEED {seeds} x '
+    run.bound(f'{total} corpus molecules (seeded sample) x {len(seeds)} fresh processes with PYTHONHASHSEED {seeds} (random: first 600 molecules) x '
               f'5 evaluations (first, cached, copy made before caching evaluated in reverse order, copy made after caching, every observable '
               f'alone on a pristine copy; canonicalize / '
               f'standardize / tautomers on the first evaluation and on every 4th copy); '
               f'tautomer enumeration: first 5, molecules <= {TAUT_MAX_ATOMS} atoms; unfiltered mappings: first 50')
     # at most NPROC workers at a time
-    queue = [(si, seed, c * size, min(size, total - c * size)) for si, seed in enumerate(seeds) for c in range(nchunks) if c * size < total]
+    rnd_total = min(total, 600)      # the PYTHONHASHSEED=random process (thorough tier) covers the first 600 molecules
+    queue = [(si, seed, c * size, min(size, total - c * size)) for si, seed in enumerate(seeds) for c in range(nchunks)
+             if c * size < (rnd_total if seed == 'random' else total)]
     results = {si: {} for si in range(len(seeds))}
     meta = {}
     running = []
 
     def launch(job):
-        si, seed, start, n = job
+        if job[0] == 'X':
+            _, part, si, seed, index, stride = job
+            argv = ['--extra', run.tier, part, str(index), str(stride)]
+        else:
+            si, seed, start, n = job
+            argv = ['--worker', str(total), str(start), str(n)]
         e = dict(base, PYTHONHASHSEED=seed)
-        p = subprocess.Popen([sys.executable, '-X', 'faulthandler', '-m', 'checks.b19', '--worker', str(total), str(start), str(n)],
+        p = subprocess.Popen([sys.executable, '-X', 'faulthandler', '-m', 'checks.b19'] + argv,
                              cwd=env.VERIF, env=e, stdout=subprocess.PIPE, stderr=subprocess.PIPE, text=True)
         return job, p
 
-    pending = list(queue)
+    # extra part: every `stride`-th item per worker (interleaved: items of one kind are spread over the workers)
+    strides = {'M': 10 if quick else 48, 'R': 3 if quick else 12, 'Q': 1 if quick else 2}
+    xqueue = [('X', part, si, seed, index, strides[part]) for part in 'MRQ' for si, seed in enumerate(xseeds) for index in range(strides[part])]
+    parts = os.environ.get('VERIF_B19_PARTS', 'corpus,extra')     # self-test / timing knob: run one part only (stated in the bounds)
+    if 'extra' not in parts:
+        xqueue = []
+        run.bound('VERIF_B19_PARTS: extra part skipped')
+    if 'corpus' not in parts:
+        queue, total = [], 0
+        run.bound('VERIF_B19_PARTS: corpus part skipped')
+    pending = xqueue + list(queue)
     limit = max(1, env.NPROC)
     import threading
     outs = {}
@@ -222,7 +299,7 @@ def bounded(run):
     run.notes['c19_pack_included'] = sorted(packs) == [True]
     if len(packs) > 1:
         raise RuntimeError('pack availability differs between workers')
-    names = meta[0]['observables']
+    names = meta[0]['observables'] if meta else []
     run.notes['c19_observables'] = names
     ref = results[0]
     if sorted(ref) != list(range(total)):
@@ -232,6 +309,8 @@ def bounded(run):
         s = a['s']
         for si in range(len(seeds)):
             b = results[si].get(i)
+            if b is None and seeds[si] == 'random' and i >= rnd_total:
+                continue
             if b is None or b['s'] != s:
                 raise RuntimeError(f'worker {si} disagrees on molecule {i}')
             for kind, name, x, y in b['internal']:
@@ -247,12 +326,81 @@ def bounded(run):
                                   native={seeds[0]: a['d'][name][1], f'{seeds[si]}#{si}': b['d'][name][1]})
         if i < 3:
             run.case(0, sample={'smiles': s, 'digests': {k: v[0] for k, v in list(a['d'].items())[:6]}, 'processes': len(seeds)})
+    if xqueue:
+        _extra_verdicts(run, xqueue, outs, xseeds)
+
+
+def _extra_verdicts(run, xqueue, outs, xseeds):
+    from bounded import d19_extra as X
+    res = {part: {si: {} for si in range(len(xseeds))} for part in 'MRQ'}
+    meta = {}
+    for job in xqueue:
+        rc, o, err = outs[job]
+        if rc != 0:
+            raise RuntimeError(f'worker {job} failed with exit code {rc}:\n{err[-2000:]}')   # checker problem, never a violation
+        _, part, si = job[:3]
+        for line in o.splitlines():
+            if not line.startswith('{'):
+                continue
+            rec = json.loads(line)
+            if 'meta' in rec:
+                meta[part, si] = rec['meta']
+                continue
+            res[part][si][rec['i'], rec['k'], rec['op']] = rec
+    what = {'M': 'molecule', 'R': 'reaction', 'Q': 'query'}
+    counts = {}
+    for part in 'MRQ':
+        ref = res[part][0]
+        local = set(meta[part, 0]['local'])
+        nitems = meta[part, 0]['items']
+        if {k[0] for k in ref} != set(range(nitems)):
+            raise RuntimeError(f'extra worker output incomplete for part {part}: {len({k[0] for k in ref})} of {nitems} items')
+        counts[part] = (nitems, len(ref), meta[part, 0]['observables'])
+        fresh = 0
+        for key in sorted(ref):
+            a = ref[key]
+            _, k, op = key
+            fresh += a['fresh']
+            for si in range(len(xseeds)):
+                b = res[part][si].get(key)
+                if b is None:
+                    raise RuntimeError(f'extra worker {si} disagrees on item {key} of part {part}')
+                for kind, name, x, y in b['internal']:
+                    fam = _family(part, b, kind, name)
+                    run.violation(f'nondeterminism:{fam}' if fam else f'nondeterminism:{part}:{kind}:{op}:{name}:{k}',
+                                  f'{name} of the {what[part]} {k} after `{op}` differs between the warm in-place evaluation and the {kind} one '
+                                  f'(PYTHONHASHSEED={xseeds[si]}): {x} vs {y}',
+                                  witness={'part': part, 'input': k, 'operation': op, 'observable': name, 'kind': kind, 'hashseed': xseeds[si]},
+                                  native={'warm': x, kind: y})
+                run.case(b['n'], key=(part, k, op) if si == 0 else None)
+                if si:
+                    for name in a['d']:     # an operation that raised in one process only shows up as `result` (the state is not observed then)
+                        if name not in local and name in b['d'] and a['d'][name][0] != b['d'][name][0]:
+                            fam = _family(part, b, 'process', name)
+                            run.violation(f'nondeterminism:{fam}' if fam else f'nondeterminism:{part}:process:{op}:{name}:{k}',
+                                          f'{name} of the {what[part]} {k} after `{op}` differs between processes: PYTHONHASHSEED={xseeds[0]} gives '
+                                          f'{a["d"][name][1]}, PYTHONHASHSEED={xseeds[si]} (process {si}) gives {b["d"][name][1]}',
+                                          witness={'part': part, 'input': k, 'operation': op, 'observable': name, 'hashseeds': [xseeds[0], xseeds[si]]},
+                                          native={xseeds[0]: a['d'][name][1], f'{xseeds[si]}#{si}': b['d'][name][1]})
+        if part == 'M':
+            run.notes['c19_extra_fresh_parse_judged'] = fresh
+    run.notes['c19_extra'] = {p: {'items': c[0], 'item x operation': c[1], 'observables': c[2]} for p, c in counts.items()}
+    run.bound(f'extra part (bounded/d19_extra.py) x {len(xseeds)} fresh processes with PYTHONHASHSEED {xseeds}: '
+              f'M {counts["M"][0]} (molecule, numbering variant) items = {len(X.SPECIAL)} special-class molecules + corpus sample under the variants {list(X.VARIANTS)}, '
+              f'{counts["M"][1]} (item, in-place operation) pairs out of {len(X.OPS)} operations (targeted + rotating), {counts["M"][2]} observables, '
+              f'4-7 evaluations each (warm in place, cold rebuild in reverse order, copy with rotating keep_* flags, cached again, fresh parse of the '
+              f'canonical string outside the recorded C01 gaps; `noop`: two keep_* combinations (rotating), copy.copy or copy of copy, rebuild, isolated); '
+              f'R {counts["R"][0]} reactions x {counts["R"][1]} (reaction, operation) pairs of {len(X.R_OPS)} operations, {counts["R"][2]} observables incl. the CGR; '
+              f'Q {counts["Q"][0]} queries x {len(X.Q_TARGETS)} targets, {counts["Q"][2]} observables; match lists: first 50, automorphisms: first 20, '
+              f'self-mappings only up to 4 components')
 
 
 def replay(rec):
     """re-evaluate the observable of the witness in fresh processes with the recorded seeds; True = identical"""
     from vlib import env
     w = rec.get('witness') or {}
+    if w.get('part'):
+        return _replay_extra(w)
     s, name = w.get('smiles'), w.get('observable')
     seeds = w.get('hashseeds') or [w.get('hashseed', '0'), '1']
     code = ('import sys, json\nfrom vlib import env; env.setup()\n'
@@ -274,8 +422,38 @@ def replay(rec):
     return len({x[0] for x in flat}) == 1
 
 
+def _replay_extra(w):
+    """witness of the extra part: the (input, operation) pair again in fresh processes under the recorded seeds (+ 0, 1); True = the
+    observable is identical everywhere and no in-process difference is reported for it"""
+    from vlib import env
+    code = ('import sys, json\nfrom vlib import env; env.setup()\n'
+            'try:\n    env.setup(pyx=True); pk = True\nexcept Exception:\n    pk = False\n'
+            'from bounded import d19_extra as X\nfrom oracles import o19_obs as O\nfrom chython import smiles\n'
+            'part, k, op, name = sys.argv[1:5]\n'
+            'if part == "M":\n    text, variant = k.rsplit("|", 1); recs = X.run_molecule(text, variant, (op,), O.molecule_observables(pk))\n'
+            'elif part == "R":\n    recs = X.run_reaction(k, (op,), O.reaction_observables(pk))\n'
+            'else:\n    recs = X.run_query(k, O.query_observables(pk, [(t, smiles(t)) for t in X.Q_TARGETS]))\n'
+            'r = recs[0]\nprint(json.dumps([r["d"].get(name), [x for x in r["internal"] if x[1] == name]]))\n')
+    seeds = [str(x) for x in (w.get('hashseeds') or [w.get('hashseed', '0')])] + ['0', '1']
+    vals = []
+    for seed in seeds:
+        e = dict(os.environ, PYTHONHASHSEED=seed, VERIF_REPO=env.REPO, PYTHONPATH=env.VERIF)
+        o = subprocess.run([sys.executable, '-c', code, w['part'], w['input'], w['operation'], w['observable']], cwd=env.VERIF, env=e,
+                           capture_output=True, text=True)
+        print('PYTHONHASHSEED', seed, o.stdout.strip()[:600], o.stderr[-300:])
+        vals.append(o.stdout.strip())
+    try:
+        parsed = [json.loads(v) for v in vals]
+    except Exception:
+        return False
+    local = w['observable'] == 'hash' or w['observable'].endswith(':hash')
+    return all(not p[1] for p in parsed) and (local or len({(p[0] or [None])[0] for p in parsed}) == 1)
+
+
 if __name__ == '__main__':
     if len(sys.argv) >= 5 and sys.argv[1] == '--worker':
         worker(int(sys.argv[2]), int(sys.argv[3]), int(sys.argv[4]))
+    elif len(sys.argv) >= 6 and sys.argv[1] == '--extra':
+        extra_worker(sys.argv[2], sys.argv[3], int(sys.argv[4]), int(sys.argv[5]))
     else:
         print(__doc__)
